@@ -8,7 +8,7 @@ here=$(cd "$(dirname "$0")/.." && pwd)
 scratch=${VERIF_SCRATCH:-/tmp/verif-scratch-$(echo "$tree" | md5sum | cut -c1-8)}
 if [ ! -d "$scratch/ws-target" ]; then
   mkdir -p "$scratch"
-  for d in ws-target replay-target replay-target-small; do [ -d "$here/.scratch/$d" ] && cp -a "$here/.scratch/$d" "$scratch/$d"; done
+  for d in ws-target replay-target replay-target-small replay-target-chrono; do [ -d "$here/.scratch/$d" ] && cp -a "$here/.scratch/$d" "$scratch/$d"; done
 fi
 export VERIF_SCRATCH="$scratch" VERIF_EVIDENCE_DIR="$scratch/evidence" VERIF_REPLAY_DIR="$scratch/replays"
 exec unshare -m bash -c 'mount --bind "$0" /repo && cd "$1" && shift && exec "$@"' "$tree" "$here" "$@"
